@@ -355,6 +355,32 @@ def c05_fills(tr, out):
             out.v("fok-filled-after-placement", {"side": f["side"]}, fragment=f, placement=p)
 
 
+def book_at_arrival_matches_file(tr, out, snaps_by_market):
+    """The book an arriving order is matched against is the one the recorded data shows for that publish time (the reader's own
+    accumulation of every line of the file, whatever the listener's filters delivered)."""
+    by_pt = {(m, s["pt"]): s for m, snaps in snaps_by_market.items() for s in snaps}
+    for p in tr.placements:
+        if p.get("atb") is None:
+            continue
+        order = tr.orders.get(p["o"])
+        if order is None:
+            continue
+        snap = by_pt.get((order.market_id, p["book_pt"]))
+        if snap is None:
+            continue
+        rb = snap["runners"].get((order.selection_id, order.handicap))
+        if rb is None or rb["status"] != "ACTIVE":
+            continue
+        out.rule("book-vs-file")
+        for side in ("atb", "atl"):
+            got = {round(pr, 2): round(sz, 2) for pr, sz in p[side]}
+            want = {round(pr, 2): round(sz, 2) for pr, sz in rb[side].items() if sz}
+            if got != want:
+                diff = sorted(set(got.items()) ^ set(want.items()))[:6]
+                out.v("book-at-arrival-differs-from-recorded-data", {"side": side, "filters": ",".join(sorted(getattr(tr, "listener_filters", ()) or ())) or "-"}, order=p["o"], pt=p["book_pt"], diff=diff)
+                break
+
+
 def c05_available(tr, out, snaps_by_market):
     """config.simulation_available_prices: a resting order is also filled from the sizes offered at or better than its limit in
     the update being processed.  Each such fragment must be covered by a level that the raw file shows in THAT update."""
@@ -1176,6 +1202,28 @@ def c06_passive(tr, out, snaps_by_market, case):
     market_ticks = collections.defaultdict(list)
     for t, tk in enumerate(tr.ticks):
         market_ticks[tk["market"]].append(t)
+    # traded volume that became known with a delivered update = growth of the cumulative ladders of the FILE between the previously
+    # delivered line of that market and this one (a listener filter may have skipped lines in between)
+    delta_at = {}
+    for m_, ts_ in market_ticks.items():
+        prev_li = None
+        for t_ in ts_:
+            li_ = line_of.get((m_, tr.ticks[t_]["pt"]))
+            if li_ is None:
+                continue
+            if prev_li is None or li_ <= prev_li:
+                delta_at[t_] = {} if prev_li is None else (deltas[m_][li_] if li_ == prev_li + 1 else {})
+            elif li_ == prev_li + 1:
+                delta_at[t_] = deltas[m_][li_]
+            else:
+                acc = {}
+                for j_ in range(prev_li + 1, li_ + 1):
+                    for k_, dd_ in deltas[m_][j_].items():
+                        a_ = acc.setdefault(k_, {})
+                        for q_, v_ in dd_.items():
+                            a_[q_] = round(a_.get(q_, 0.0) + v_, 2)
+                delta_at[t_] = acc
+            prev_li = li_
     passive = collections.defaultdict(list)  # okey -> [(tick, size)]
     for f in tr.fragments:
         if f["caller"] == "_calculate_process_traded":
@@ -1227,13 +1275,19 @@ def c06_passive(tr, out, snaps_by_market, case):
         for t in market_ticks[m]:
             if t < p["tick"]:
                 continue
+            if t == p["tick"] and p.get("book_is_update"):
+                # the order was matched against (and took its queue position from) the book of this very update: what traded up to
+                # that book traded before the order arrived
+                if any(x[0] == t for x in pf):
+                    out.v("filled-by-volume-traded-before-arrival", {"isolation": isolation, "lone": lone, "side": side}, order=o, tick=t, fills=[x for x in pf if x[0] == t][:3], placement=_pl(p))
+                continue
             if o in cancel_effect and cancel_effect[o] <= t:
                 break  # a cancel / replace took effect before this update's matching: the resting size changed
             s = by_tick.get(t)
             if s is None:
                 break
             li = line_of.get((m, tr.ticks[t]["pt"]))
-            dd = deltas[m][li].get(sel, {}) if li is not None else {}
+            dd = delta_at.get(t, {}).get(sel, {}) if li is not None else {}
             elig = sum(v for q, v in dd.items() if (q >= price if side == "BACK" else q <= price))
             fills_now = [x for x in pf if x[0] == t]
             got_now = sum(x[1] for x in fills_now)
@@ -1272,7 +1326,7 @@ def c06_passive(tr, out, snaps_by_market, case):
     # aggregate feasibility per update, and priority where unambiguous
     for (group, m, sel, t), fills in per_tick_fill.items():
         li = line_of.get((m, tr.ticks[t]["pt"]))
-        dd = deltas[m][li].get(sel, {}) if li is not None else {}
+        dd = delta_at.get(t, {}).get(sel, {}) if li is not None else {}
         prices = sorted(dd)
         okeys = list(fills)
         demands = [fills[o][0] for o in okeys]
